@@ -6,6 +6,7 @@
 // Keep every function inside the subset: a function that stops translating makes every `bin/check` fail.
 #![allow(dead_code, unused_variables, unused_mut, clippy::all)]
 
+use std::cmp::{max, min};
 use std::collections::{BTreeMap, BTreeSet, HashMap, VecDeque};
 
 #[derive(Clone, Debug, PartialEq)]
@@ -289,6 +290,33 @@ impl Holder {
         adds.push(i);
         self.h += 1;
     }
+}
+
+pub struct Pay {
+    pub hash: u32,
+    pub value: u64,
+}
+
+/// entry API (`and_modify` with a checked `+=`, `or_insert`), a collection typed by being the function's result
+pub fn summarize(hs: &[Pay]) -> BTreeMap<u32, u64> {
+    let mut s = BTreeMap::new();
+    for h in hs {
+        s.entry(h.hash).and_modify(|e| *e += h.value).or_insert(h.value);
+    }
+    s
+}
+
+/// iteration over a `HashMap` is admitted only as one entry-update at the loop key per iteration (the updates commute);
+/// `retain` on a map; `and_modify` alone
+pub fn merge_max(a: &mut HashMap<u64, u64>, b: HashMap<u64, u64>, c: HashMap<u64, u64>, probe: u64) -> (usize, Option<u64>) {
+    for (k, v) in b {
+        a.entry(k).and_modify(|e| *e = max(*e, v)).or_insert(v);
+    }
+    for (k, v) in c {
+        a.entry(k).and_modify(|e| *e = min(*e, v));
+    }
+    a.retain(|_, v| *v != 7);
+    (a.len(), a.get(&probe).copied())
 }
 
 /// newtype (tuple struct with one component, listed under `tuple_structs`), `copy_from_slice` into a range and into
